@@ -437,6 +437,11 @@ def judgeFromFloat (T : Ty) (B : BinFmt) (bits : Nat) (ryu : List Nat) (a : PAns
       let q : Int := expValue ex - fr.length
       let nn := need d (some q)
       chk (s' == s && rneDecSafe B c q == some (bits % B.signMask)) "RYU" "float formatter contract: text does not round to the float" ++
+      -- the rest of the contract the C12 theorems assume (`Props.C12.RyuContractWide`), monitored on every request
+      chk (d ≤ 34 && c < 10 ^ 17 && -400 ≤ expValue ex && expValue ex ≤ 400) "RYU" "float formatter contract: more than 17 significant / 34 written digits or a huge exponent" ++
+      chk (match ryu with
+           | c0 :: rest => isDigit c0 || (c0 == 45 && (match rest with | d0 :: _ => isDigit d0 | [] => false))
+           | [] => false) "RYU" "float formatter contract: text does not start with a digit or a minus sign and a digit" ++
       (match a with
        | .none =>
          (match T.capN with
